@@ -302,10 +302,15 @@ func Explore(harness, variant string, body func(), o Options) *Result {
 }
 
 // Replay runs one recorded choice sequence n times and checks that the observations agree.
-func Replay(body func(), choices []int, n int) (*Exec, error) {
+// maxSteps (optional) is the variant's per-execution step horizon; 0 / absent = default.
+func Replay(body func(), choices []int, n int, maxSteps ...int) (*Exec, error) {
 	var first *Exec
+	ms := 0
+	if len(maxSteps) > 0 {
+		ms = maxSteps[0]
+	}
 	for i := 0; i < n; i++ {
-		x := RunOnce(body, RunOptions{Prefix: choices, Bound: 1 << 20})
+		x := RunOnce(body, RunOptions{Prefix: choices, Bound: 1 << 20, MaxSteps: ms})
 		if x.Diverged != "" {
 			return x, fmt.Errorf("replay diverged: %s", x.Diverged)
 		}
